@@ -136,7 +136,7 @@ def run(module, cfg, workers=8, on_emit=None, timeout=3600, extra=(), env=None,
                    or "Deadlock reached" in l or "postcondition" in l.lower() for l in error_lines):
                 res["violated"] = True
             else:
-                raise MachineryError("TLC failed on %s:\n%s" % (module, res["tail"]))
+                raise MachineryError("TLC failed on %s:\n%s\n...\n%s" % (module, res["error"][:1200], res["tail"][-800:]))
         return res
     finally:
         rm(wd)
